@@ -45,7 +45,7 @@ def generate(chk, tier):
     jobs = []
     for i, c in enumerate(confs):
         cfg = base.write_cfg("chronogen_%d.cfg" % i, GEN_CFG % dict(c, seed=seed))
-        jobs.append(dict(module="ChronoGen", cfg=cfg, timeout=1700, xmx="8g", workers=max(2, vlib.NCPU // len(confs)),
+        jobs.append(dict(module="ChronoGen", cfg=cfg, timeout=1700, xmx="4g", workers=max(2, vlib.NCPU // len(confs)),
                          env={"JAVA_TOOL_OPTIONS": "-XX:ParallelGCThreads=4"}))
     texts = []
     seen = set()
@@ -93,7 +93,7 @@ def run_check(tier):
     chk.add_cases(len(rows), distinct_keys=((g["k"], tuple(g["t"])) for g in texts))
     chk.sample({"text": "".join(chr(c) for c in texts[len(texts) // 3]["t"]), "record": json.loads(lines[len(lines) // 3])})
     # 4. the specification decides
-    checked, bad = vlib.validate_traces("Trace_ChronoParse", lines, cfg="Trace_ChronoParse.cfg", timeout=1700,
+    checked, bad = vlib.validate_traces("Trace_ChronoParse", lines, cfg="Trace_ChronoParse.cfg", timeout=1700, xmx="2g",
                                         env={"JAVA_TOOL_OPTIONS": "-XX:ParallelGCThreads=2"})
     chk.add_cases(0, validated=checked)
     byid = {r["id"]: r for r in rows}
